@@ -105,3 +105,70 @@ M('jsonl_skip_non_dict', 'C19', J, """            if not line:
             try:""", """            if not line or (self._reverse and line[:1] in ('n', b'n')):
                 continue
             try:""")
+
+# ---------------------------------------------------------------- C17
+M('oto_setitem_no_evict_value', 'C17', D,
+  """        if val in self.inv:
+            del self.inv[val]
+        dict.__setitem__(self, key, val)""",
+  """        dict.__setitem__(self, key, val)""")
+M('oto_pop_keeps_inv', 'C17', D,
+  """        if key in self:
+            dict.__delitem__(self.inv, self[key])
+            return dict.pop(self, key)""",
+  """        if key in self:
+            return dict.pop(self, key)""")
+M('oto_setdefault_direct', 'C17', D,
+  """        if key not in self:
+            self[key] = default
+        return self[key]
+
+    def update(self, dict_or_iterable, **kw):""",
+  """        return dict.setdefault(self, key, default)
+
+    def update(self, dict_or_iterable, **kw):""")
+M('oto_copy_shares_inv', 'C17', D,
+  """    def copy(self):
+        return self.__class__(self)
+
+    def pop(self, key, default=_MISSING):""",
+  """    def copy(self):
+        ret = self.__class__(self)
+        if len(self) > 2:
+            ret.inv = self.inv
+        return ret
+
+    def pop(self, key, default=_MISSING):""")
+M('m2m_remove_leaves_empty', 'C17', D,
+  """        self.data[key].remove(val)
+        if not self.data[key]:
+            del self.data[key]
+        self.inv.data[val].remove(key)""",
+  """        self.data[key].remove(val)
+        self.inv.data[val].remove(key)""")
+M('m2m_delitem_inv_empty', 'C17', D,
+  """            self.inv.data[val].remove(key)
+            if not self.inv.data[val]:
+                del self.inv.data[val]
+
+    def update(self, iterable):""",
+  """            self.inv.data[val].remove(key)
+
+    def update(self, iterable):""")
+M('m2m_setitem_no_remove', 'C17', D,
+  """            for val in to_remove:
+                self.remove(key, val)
+        for val in vals:""",
+  """            for val in list(to_remove)[1:]:
+                self.remove(key, val)
+        for val in vals:""")
+M('frozen_missing_mutator', 'C17', D,
+  """    setdefault = pop = popitem = clear = _raise_frozen_typeerror""",
+  """    setdefault = pop = clear = _raise_frozen_typeerror""")
+M('frozen_hash_order', 'C17', D,
+  """                ret = self._hash = hash(frozenset(self.items()))""",
+  """                ret = self._hash = hash(tuple(self.items()))""")
+M('frozen_hash_error_once', 'C17', D,
+  """                ret = self._hash = FrozenHashError(e)""",
+  """                ret = FrozenHashError(e)
+                self._hash = 0""")
